@@ -388,6 +388,9 @@ class MarkdownNormalizer(Renderer):
             with self.container(prefix, subsequent_indent):
                 rendered_item = self.render(child)
                 result.append(rendered_item)
+            # The enclosing first-line prefix (e.g. the marker of a parent item whose first
+            # block is this list) has now been used; following items must not repeat it.
+            self._prefix = self._second_prefix
 
         # Restore the previous list's tightness (for nested lists)
         self._current_list_tight = old_tight
